@@ -18,7 +18,7 @@ import traceback
 
 from harness import common as C
 
-PROP_MODULES = ['Andes.Props.C12']
+PROP_MODULES = ['Andes.Props.C12', 'Andes.Props.C12Acc']
 RULE = ('connectivity case = (generated topology of 1-14 buses: tree / ring / random multigraph / many islands / '
         'self loop, lines and jumpers, 0-3 slacks) x (on/off pattern of every line, jumper, slack: random density, '
         'all on, all off, single outage, slack disconnected); ConnMan case = (topology, buses off in the data, '
